@@ -14,6 +14,7 @@ import (
 	"sync"
 	"time"
 
+	"github.com/Vedant9500/WTF/internal/database"
 	"github.com/Vedant9500/WTF/internal/metrics"
 )
 
@@ -35,6 +36,8 @@ import (
 //	recsearch <durNs> <results> <hit> <qlen> | recdb <hexop> <durNs> <succ> | enable <0|1>   -> ok
 //	totals                                         -> canonical dump of the monitor's collector (+ timers)
 //	dump                                           -> canonical dump of c (GetAllMetrics)
+//	mdbload <n> | mdbsearch <hexquery> <limit> <withOptions> | mdbenable <0|1>      -> ok   (database.MonitoredDatabase)
+//	mdbtotals                                      -> <sum searches_total> <hits+misses> <query_length_count> <load,true> <sum db ops>
 func init() {
 	Register(&Domain{Name: "metrics", Gen: genMetrics, Exec: execMetrics})
 	RegisterTool("c18race", toolC18Race)
@@ -67,6 +70,14 @@ func (id mIdent) tokens(r *Rng) string {
 var mNames = []string{"m", "requests_total", "a:b", "a=b", "x:y=z", "", "m:a=1", "\xff\xfe", "q", "searches_total"}
 var mTagNames = []string{"a", "b", "c", "k:1", "k=", "=", ":", "", "zz", "A", "method", "status", "\xc3\xa9", "cache_hit"}
 var mTagVals = []string{"1", "2", "", "x:y", "1:b=2", "=", "GET", "true", "false", "200", ":", "1:c=3"}
+var mdbQueries = []string{"list files", "git commit", "", "zzzz", "compress folder", "docker run", "list files", "\xc3\xa9t\xc3\xa9"}
+var mdbCommands = []database.Command{
+	{Command: "ls -la", Description: "list files in a directory", Keywords: []string{"list", "files"}},
+	{Command: "git commit -m msg", Description: "commit staged changes", Keywords: []string{"git", "commit"}, Niche: "git"},
+	{Command: "tar -czf a.tgz dir", Description: "compress a folder", Keywords: []string{"compress", "folder", "tar"}},
+	{Command: "docker run -it img", Description: "run a container", Keywords: []string{"docker", "run"}, Niche: "docker"},
+	{Command: "find . -name x | xargs rm", Description: "find and delete files", Keywords: []string{"find", "delete"}, Pipeline: true},
+}
 var mDbOps = []string{"load", "save", "reload", "a:b", "x=1:success=true", "", "load:success=false"}
 
 func genIdent(r *Rng) mIdent {
@@ -226,6 +237,21 @@ func genMetrics(r *Rng, tier string, idx int, args map[string]string) []string {
 		}
 	}
 	ops = append(ops, "totals", "dump")
+	if r.Chance(1, 3) { // the monitored database wrapper of search_monitored.go
+		for i, k := 0, r.Range(2, 14); i < k; i++ {
+			switch x := r.Intn(100); {
+			case x < 20:
+				ops = append(ops, "mdbload "+Itoa(r.Intn(6)))
+			case x < 85:
+				ops = append(ops, "mdbsearch "+Hx(Pick(r, mdbQueries))+" "+Itoa(r.Range(1, 5))+" "+B(r.Bool()))
+			case x < 92:
+				ops = append(ops, "mdbenable "+B(r.Chance(2, 3)))
+			default:
+				ops = append(ops, "mdbtotals")
+			}
+		}
+		ops = append(ops, "mdbtotals")
+	}
 	return ops
 }
 
@@ -414,6 +440,14 @@ func execMetrics(ops []string, mon *Mon) []string {
 	xs := map[int]*metrics.Histogram{}
 	xsh := map[int]*histShadow{}
 	enabled := true
+	var mdb *database.MonitoredDatabase
+	mdbEnabled, mdbSearches, mdbLoads := true, int64(0), int64(0)
+	getMdb := func() *database.MonitoredDatabase {
+		if mdb == nil {
+			mdb = database.NewMonitoredDatabase(&database.Database{})
+		}
+		return mdb
+	}
 	nSearch := map[bool]int64{}
 	nDb := map[dbKey]int64{}
 	variant := 0
@@ -632,6 +666,56 @@ func execMetrics(ops []string, mon *Mon) []string {
 			out = append(out, dumpCollector(pm.VerifCollector(), true))
 		case "dump":
 			out = append(out, dumpCollector(c, false))
+		case "mdbload":
+			n := Atoi(f[1])
+			cmds := append([]database.Command{}, mdbCommands[:n%(len(mdbCommands)+1)]...)
+			_ = getMdb().LoadDatabaseWithMonitoring(cmds)
+			if mdbEnabled {
+				mdbLoads++
+			}
+			mon.Tag("mdb-load")
+			out = append(out, "ok")
+		case "mdbsearch":
+			q, limit := UnHx(f[1]), Atoi(f[2])
+			if f[3] == "1" {
+				getMdb().SearchWithOptionsAndMonitoring(q, database.SearchOptions{Limit: limit, UseNLP: true})
+			} else {
+				getMdb().SearchWithMonitoring(q, limit)
+			}
+			if mdbEnabled {
+				mdbSearches++
+			}
+			mon.Tag("mdb-search")
+			out = append(out, "ok")
+		case "mdbenable":
+			mdbEnabled = f[1] == "1"
+			getMdb().EnableMonitoring(mdbEnabled)
+			out = append(out, "ok")
+		case "mdbtotals":
+			var sTotal, hm, ql, loadOK, dbAll float64
+			for _, m := range getMdb().GetPerformanceReport().ApplicationMetrics {
+				switch m.Name {
+				case "searches_total":
+					sTotal += m.Value
+				case "cache_hits_total", "cache_misses_total":
+					hm += m.Value
+				case "query_length_count":
+					ql += m.Value
+				case "database_operations_total":
+					dbAll += m.Value
+					if tagsEq(m.Tags, map[string]string{"operation": "load", "success": "true"}) {
+						loadOK += m.Value
+					}
+				}
+			}
+			if sTotal != float64(mdbSearches) || hm != float64(mdbSearches) || ql != float64(mdbSearches) {
+				mon.Hit("C18", "monitored-db-total-mismatch", map[string]interface{}{"searches_total": sTotal, "hits+misses": hm, "query_length_count": ql, "searches_performed_while_enabled": mdbSearches})
+			}
+			if loadOK != float64(mdbLoads) || dbAll != float64(mdbLoads) {
+				mon.Hit("C18", "monitored-db-total-mismatch", map[string]interface{}{"database_operations_total{load,true}": loadOK, "all": dbAll, "loads_performed_while_enabled": mdbLoads})
+			}
+			mon.Tag("mdb-totals")
+			out = append(out, Itoa64(int64(sTotal))+" "+Itoa64(int64(hm))+" "+Itoa64(int64(ql))+" "+Itoa64(int64(loadOK))+" "+Itoa64(int64(dbAll)))
 		default:
 			out = append(out, "bad-op")
 		}
